@@ -68,6 +68,11 @@ class TaskCtx:
             interp.in_spec += 1
             try:
                 post(P)
+            except ZeroDivisionError:
+                # arrays are lazy: a division by a constant zero inside the code's result surfaces when the
+                # result is inspected (numpy would produce inf/nan): the result is not finite
+                P.fail("finite(no division by zero)", "the result divides by a constant zero (non-finite value)",
+                       replay=getattr(self, "native", None))
             finally:
                 interp.in_spec -= 1
         try:
